@@ -357,6 +357,51 @@ mod tmap {
         (out, content.join(","), order, model.into_iter().map(|e| e.0).collect())
     }
 
+    /// two entries offered by a map access that claims `hint` entries
+    pub fn foreign_map(hint: usize) -> String {
+        use serde::de::{self, DeserializeSeed, Deserializer, IntoDeserializer, MapAccess, Visitor};
+        struct D(usize);
+        struct A {
+            left: Vec<(&'static str, i64)>,
+            hint: usize,
+        }
+        impl<'de> MapAccess<'de> for A {
+            type Error = de::value::Error;
+            fn next_key_seed<K: DeserializeSeed<'de>>(&mut self, seed: K) -> Result<Option<K::Value>, Self::Error> {
+                match self.left.last() {
+                    None => Ok(None),
+                    Some((k, _)) => seed.deserialize((*k).into_deserializer()).map(Some),
+                }
+            }
+            fn next_value_seed<V: DeserializeSeed<'de>>(&mut self, seed: V) -> Result<V::Value, Self::Error> {
+                let (_, v) = self.left.pop().unwrap();
+                seed.deserialize(v.into_deserializer())
+            }
+            fn size_hint(&self) -> Option<usize> {
+                Some(self.hint)
+            }
+        }
+        impl<'de> Deserializer<'de> for D {
+            type Error = de::value::Error;
+            fn deserialize_any<V: Visitor<'de>>(self, v: V) -> Result<V::Value, Self::Error> {
+                v.visit_map(A { left: vec![("a", 2), ("b", 1)], hint: self.0 })
+            }
+            serde::forward_to_deserialize_any! {
+                bool i8 i16 i32 i64 i128 u8 u16 u32 u64 u128 f32 f64 char str string bytes byte_buf option unit
+                unit_struct newtype_struct seq tuple tuple_struct map struct enum identifier ignored_any
+            }
+        }
+        match std::panic::catch_unwind(|| toml::Table::deserialize(D(hint))) {
+            Err(_) => "PANIC".to_string(),
+            Ok(Err(e)) => format!("Err({e})"),
+            Ok(Ok(t)) => {
+                let mut e: Vec<String> = t.iter().map(|(k, v)| format!("{k}={v:?}")).collect();
+                e.sort();
+                e.join(",")
+            }
+        }
+    }
+
     #[derive(Deserialize, Debug)]
     #[allow(dead_code)]
     enum Shape {
@@ -513,6 +558,11 @@ fn main() {
                     println!("t-parse-message#{i} {}", e.message().replace('\n', " | "));
                 }
             }
+            // the root's keys asked for together with their spans
+            match toml::from_str::<std::collections::BTreeMap<toml::Spanned<String>, toml::Value>>(&text) {
+                Ok(m) => println!("t-spanned-keys#{i} ok {}", h(&format!("{:?}", m.keys().map(|k| (k.get_ref().clone(), k.span())).collect::<Vec<_>>()))),
+                Err(e) => println!("t-spanned-keys#{i} err {:?}", e.span()),
+            }
         }
     }
 
@@ -579,6 +629,10 @@ fn main() {
         for i in 0..n_built {
             let mut rng = Rng::new(refmodel::rng::mix(&[seed, 0x1E7, i]));
             println!("t-into#{i} {}", tmap::into_types(&mut rng));
+        }
+        // a toml::Table filled by another format's deserializer, whose length hint cannot be trusted
+        for hint in [0usize, 2, 3, 1 << 20, usize::MAX / 64, usize::MAX] {
+            println!("t-foreign-map#{hint} {}", tmap::foreign_map(hint));
         }
     }
 
